@@ -410,6 +410,21 @@ fn gen_font(sh: &Shape) -> GFont {
                 f.lig.push(LItem::Krn(right, k));
             }
         };
+        let mut free: Vec<u8> = codes.clone();
+        // shuffle
+        for i in (1..free.len()).rev() {
+            let j = r.below(i as u64 + 1) as usize;
+            free.swap(i, j);
+        }
+        // The leading run of `pad` steps: labelled by one character for even seeds (a long
+        // reachable chain, so that the entry points behind it still need redirect words after
+        // the first trip), unlabelled otherwise (tftopl drops it as unreachable).
+        if sh.pad > 0 && sh.seed % 2 == 0 {
+            if let Some(c) = free.pop() {
+                f.lig.push(LItem::Label(c));
+                tagged.insert(c);
+            }
+        }
         for _ in 0..sh.pad {
             gen_step(&mut r, &mut f);
         }
@@ -417,12 +432,6 @@ fn gen_font(sh: &Shape) -> GFont {
             f.lig.push(LItem::Stop);
         }
         let lb_at = if sh.lb > 0 && sh.chains > 0 { Some(r.below(sh.chains as u64) as u32) } else { None };
-        let mut free: Vec<u8> = codes.clone();
-        // shuffle
-        for i in (1..free.len()).rev() {
-            let j = r.below(i as u64 + 1) as usize;
-            free.swap(i, j);
-        }
         for ch in 0..sh.chains {
             let nlab = 1 + r.below(sh.labels.max(1) as u64) as usize;
             let mut any = false;
